@@ -21,7 +21,8 @@ MANIFEST = {
             'membership vs. an independent verdict, store rows vs. accepted ids, relay count per peer and block, pool and '
             'state unchanged by rejections, later blocks still stored, no exception out of the event loop.'
             " Bulk-download deliveries (in_response_to != 0) are generated as context in part of the runs: unvalidated installs that are only buffered, the node's fall-back to its last validated state followed as an event, dropped blocks delivered again by either route, restarts with buffered blocks, repeats by both routes; the node's reported tips are compared with the stored blocks without stored children after every settle."
-            " Further context and races: a slow peer whose answer to the node's own request arrives after the block was stored by another route; bulk-download bursts of up to 120 (thorough: 1001) requested blocks; the node's other thread flushing the store inside the validation of a relayed block (what it makes durable is followed by the reference).",
+            " Further context and races: a slow peer whose answer to the node's own request arrives after the block was stored by another route; bulk-download bursts of up to 120 (thorough: 1001) requested blocks; the node's other thread flushing the store inside the validation of a relayed block (what it makes durable is followed by the reference)."
+            " Part of the worlds start with a freshly installed node (genesis only: its last validated state is the empty chain) whose first blocks arrive by bulk download, started over after every fall-back to the empty chain. Every install is judged with the node's clock of that moment, fractions of a second included (relayed blocks dated clock+30 and clock+31); valid blocks are also pushed as 'responses' nobody asked for; half of the restarts are preceded by an orderly shutdown.",
     'note': 'Trusted: reference rules/fork choice, Bot endpoints (repo codecs as tools), simulated TCP/selector/clock; '
             'arrival order of overlapped deliveries is taken from the order in which the node installed them.',
 }
@@ -765,6 +766,6 @@ def describe():
         'assumptions': ['bulk-download deliveries (in_response_to != 0) are generated as context only: whether they are installed is not judged; '
                         'the node may drop all blocks installed unvalidated since its last validated install when it rejects a relay',
                         'a block whose timestamp is within the settle window of clock+30 carries no expectation'],
-        'expected_probes': ['accepted_relays', 'rejected_relays', 'probe:relay_became_head', 'probe:relay_on_side_chain',
+        'expected_probes': ['probe:first_synchronisation_from_genesis', 'accepted_relays', 'rejected_relays', 'probe:relay_became_head', 'probe:relay_on_side_chain',
                             'probe:orphan_dropped', 'probe:duplicate_delivery', 'probe:pool_non_empty', 'fault:restart'],
     }
